@@ -771,21 +771,13 @@ fn invariants(planes: &Airplanes, model: &Model, fails: &mut Vec<Fail>) {
             if let Some(t) = &st.track {
                 for e in t {
                     if let Some(p) = e.position {
-                        let q = (p.latitude, p.longitude);
-                        if actual.last().map(|l| !pos_eq(*l, q)).unwrap_or(true) {
-                            actual.push(q);
-                        }
+                        actual.push((p.latitude, p.longitude));
                     }
                 }
             }
-            // collapse consecutive duplicates of the model's history as well
-            let mut hist: Vec<((f64, f64), bool)> = vec![];
-            for (h, must) in &rec.history {
-                match hist.last_mut() {
-                    Some(l) if pos_eq(l.0, *h) => l.1 |= *must,
-                    _ => hist.push((*h, *must)),
-                }
-            }
+            // every supersession is an entry of the model's history: mandatory when the position
+            // changed or disappeared, optional when the same position was published again
+            let hist: Vec<((f64, f64), bool)> = rec.history.clone();
             // actual must be a subsequence of the history that contains every mandatory entry
             // (dynamic programme: reach[j] = the first i history entries can be explained with j actual entries)
             let (n, m) = (hist.len(), actual.len());
